@@ -555,6 +555,10 @@ func run(c *engine.Ctx) {
 		if len(lat) > nlat {
 			// keep the inapplicable kind (last entry) in the quick tier too
 			lat = append(append([]string{}, lat[:nlat-1]...), lat[len(lat)-1])
+			if base == "string" {
+				// and a second, different pattern: patterns of several levels must ALL hold
+				lat = append(lat, "pattern:[0-9]+", "pattern:.{3}")
+			}
 		}
 		if strings.HasPrefix(base, "decimal64") {
 			l2 := append([]string{}, lat...)
